@@ -44,6 +44,7 @@ class ProtoInterp(nalg.NInterp):
         self.safe_advance = 0  # largest k for which `time + k·dt < end` was established on this path (dt unchanged since)
         self.at_or_past_end = False
         self.advanced = 0
+        self.margin = -1       # ghost: largest k >= 0 with `time + k·dt < end` known (carried across calls; -1 = nothing known)
         self.events = []       # (what, payload, node)
         self.fresh_user_symbols = True
         self.state_fresh = False
@@ -52,6 +53,7 @@ class ProtoInterp(nalg.NInterp):
     def note_advance(self, k, node):
         if k <= 0:
             return
+        self.margin = max(-1, self.margin - k)
         self.advanced += k
         if self.ste is not None:
             if k > self.ste:
@@ -117,6 +119,7 @@ class ProtoInterp(nalg.NInterp):
             if self.ste is None:
                 self.safe_advance = 0
             self.dt_dirty = True
+            self.margin = min(self.margin, 0)      # `time < end` survives a change of dt, `time + k·dt < end` does not
             self.advanced = 0 if self.ste is None else self.advanced
             self.events.append(("dt", self.ste, node))
             return nalg.NInterp.assign(self, lhs, val, node)
@@ -186,6 +189,7 @@ class ProtoInterp(nalg.NInterp):
                 k = self.end_steps(c)
                 if k is not None and not dec:
                     self.safe_advance = max(self.safe_advance, k) if self.ste is None else self.safe_advance
+                    self.margin = max(self.margin, k)
                 if k is not None and dec and k == 0:
                     self.at_or_past_end = True
         if dec:
@@ -206,7 +210,17 @@ class ProtoInterp(nalg.NInterp):
 
     def end_condition(self, c):
         """time + k·dt >= end is decided by the ghost steps-to-end when it is known."""
-        if self.ste is None or not isinstance(c, (sp.Ge, sp.Gt)):
+        if not isinstance(c, (sp.Ge, sp.Gt)):
+            return None
+        if self.ste is None:
+            # facts carried over from earlier end tests: time + k·dt < end for every k <= margin
+            if self.margin >= 0 and c.rhs == self.fields["self.end"]:
+                try:
+                    k = sp.simplify((c.lhs - self.fields["self.time"]) / self.fields["self.dt"])
+                except Exception:
+                    return None
+                if getattr(k, "is_Integer", False) and 0 <= int(k) <= self.margin:
+                    return False
             return None
         end = self.fields["self.end"]
         if c.rhs != end:
@@ -230,7 +244,7 @@ class Proto:
 
     def run_call(self, state, prefix):
         """Execute step() from abstract `state` following decision `prefix`; returns (result, forks)."""
-        ym, vals, ders, save, last, ste, dirty = state
+        ym, vals, ders, save, last, ste, dirty, origin, margin = state
         forks = []
         decisions = list(prefix)
         pos = [0]
@@ -256,6 +270,8 @@ class Proto:
         it.fields["self.data"] = sym.Opaque("data")
         it.ste = ste
         it.dt_dirty = dirty
+        it.margin = margin
+        it.safe_advance = max(0, margin)
         it.fields["self.yield_memory"] = sp.Integer(ym)
         it.fields["self.save_state"] = Y(save) if save is not None else sp.Symbol("Ysave?", real=True)
         log = []
@@ -289,7 +305,7 @@ class Proto:
 
     def explore(self, limit=4000):
         O = self.O
-        init = (0, (), (), None, 0, None, False)
+        init = (0, (), (), None, 0, None, False, None, -1)
         seen = {init}
         work = [init]
         transitions = []
@@ -321,8 +337,24 @@ class Proto:
                 stack.extend(forks)
                 n_calls += 1
                 flagged[0] = False
-                ym, vals, ders, save, last, ste, dirty = st
+                ym, vals, ders, save, last, ste, dirty, origin, margin = st
                 kind, tag = self.classify(it, res)
+                # ghost: under which end tests was the pending start-up taken (identifies the history that leads to a T1 finding)
+                norigin = origin
+                if any(w == "save" for w, _, _ in it.events):
+                    ends = []
+                    for c, d in labels:
+                        if isinstance(c, (sp.Ge, sp.Gt)) and c.rhs == sym.S("end"):
+                            try:
+                                k = sp.simplify((c.lhs - T(0)) / sym.S("dt"))
+                            except Exception:
+                                k = None
+                            if k == 0:
+                                continue
+                            lhs = "t" if k == 0 else ("t+%s·dt" % ("" if k == 1 else k) if k is not None and k.is_number else str(c.lhs))
+                            ends.append("%s%send:%s" % (lhs, ">=" if isinstance(c, sp.Ge) else ">", "T" if d else "F"))
+                    norigin = ",".join(ends) or "no-end-test"
+                osfx = "[start-up under %s]" % origin if origin else ""
                 p = it.p
                 nvals = tuple(tag_of(x[0]) for x in it.fields["self.prev_values"].items)
                 nders = tuple(tag_of(x) for x in it.fields["self.prev_derivatives"].items) if self.kind == "adams" else ()
@@ -360,12 +392,12 @@ class Proto:
                         if tag <= last:
                             problem("T2:repeat@ym=%s" % ymname(ym), "point %d is yielded although point %d was already yielded (from state ym=%d)" % (tag, last, ym), None, st, labels)
                         else:
-                            problem("T1:overtake@ym=%s" % ymname(ym), "point %d is yielded while points %s were computed, buffered and never yielded (from state ym=%d, buffered %s)"
+                            problem("T1:overtake@ym=%s%s" % (ymname(ym), osfx), "point %d is yielded while points %s were computed, buffered and never yielded (from state ym=%d, buffered %s)"
                                     % (tag, list(range(last + 1, tag)), ym, list(vals)), None, st, labels)
                     nlast = max(last, tag)
                 elif kind == "done":
                     if last != p:
-                        problem("T1:done-with-pending@ym=%s" % ymname(ym), "Done is returned at position %d while the last yielded point is %d: the buffered start-up points %s are dropped (state ym=%d)"
+                        problem("T1:done-with-pending@ym=%s%s" % (ymname(ym), osfx), "Done is returned at position %d while the last yielded point is %d: the buffered start-up points %s are dropped (state ym=%d)"
                                 % (p, last, [t for t in vals if t > last], ym), None, st, labels)
                 elif kind in ("yield-incoherent", "yield-unknown", "unknown"):
                     problem("R1.5:" + kind, "step returns %s" % (tag,), None, st, labels)
@@ -390,7 +422,7 @@ class Proto:
                 def rel(ts):
                     return tuple(t - p for t in ts)
                 pending = (nym == O) if self.kind == "adams" else (nym == O + 1)
-                nst = (nym, rel(nvals), rel(nders), (nsave - p) if (nsave is not None and pending) else None, nlast - p, it.ste, bool(it.dt_dirty and pending))
+                nst = (nym, rel(nvals), rel(nders), (nsave - p) if (nsave is not None and pending) else None, nlast - p, it.ste, bool(it.dt_dirty and pending), norigin if nym != 0 else None, min(it.margin, O + 1) if it.ste is None else -1)
                 transitions.append((st, kind, tag, nst, labels))
                 if kind == "redo":
                     wrote_dt = any(w == "dt" for w, _, _ in it.events)
